@@ -12,10 +12,10 @@ type Expr interface{ exprNode() }
 type Stmt interface{ stmtNode() }
 
 type (
-	Nil    struct{ Node }
-	True   struct{ Node }
-	False  struct{ Node }
-	Int    struct {
+	Nil   struct{ Node }
+	True  struct{ Node }
+	False struct{ Node }
+	Int   struct {
 		Node
 		V int64
 	}
@@ -128,9 +128,9 @@ type (
 	}
 	If struct {
 		Node
-		Conds  []Expr
-		Blocks [][]Stmt
-		Else   []Stmt // nil = absent
+		Conds   []Expr
+		Blocks  [][]Stmt
+		Else    []Stmt // nil = absent
 		HasElse bool
 	}
 	NumFor struct {
@@ -190,6 +190,13 @@ func (*Label) stmtNode()     {}
 // Prog is a chunk.
 type Prog struct {
 	Body []Stmt
+	// Args are the values the chunk is called with (they reach the chunk's
+	// `...`): each is nil, bool, int64, float64 or string.
+	Args []interface{}
+	// Key is a canonical, process independent descriptor of the program within
+	// its family (token string, mixed-radix digits, ...); violation keys are
+	// built from it.
+	Key  string
 	next int
 }
 
@@ -201,6 +208,9 @@ func NewB() *B { return &B{p: &Prog{}} }
 func (b *B) id() Node { b.p.next++; return Node{ID: b.p.next} }
 
 func (b *B) Prog(body ...Stmt) *Prog { b.p.Body = body; return b.p }
+
+// ProgOf is Prog for a statement slice.
+func (b *B) ProgOf(body []Stmt) *Prog { b.p.Body = body; return b.p }
 
 func (b *B) Nil() Expr            { return &Nil{b.id()} }
 func (b *B) True() Expr           { return &True{b.id()} }
@@ -253,9 +263,9 @@ func (b *B) CallS(call Expr) Stmt { return &CallStat{b.id(), call} }
 func (b *B) Emit(args ...Expr) Stmt {
 	return &CallStat{b.id(), b.CallN("emit", args...)}
 }
-func (b *B) Do(body ...Stmt) Stmt               { return &Do{b.id(), body} }
-func (b *B) While(c Expr, body ...Stmt) Stmt    { return &While{b.id(), c, body} }
-func (b *B) Repeat(body []Stmt, c Expr) Stmt    { return &Repeat{b.id(), body, c} }
+func (b *B) Do(body ...Stmt) Stmt            { return &Do{b.id(), body} }
+func (b *B) While(c Expr, body ...Stmt) Stmt { return &While{b.id(), c, body} }
+func (b *B) Repeat(body []Stmt, c Expr) Stmt { return &Repeat{b.id(), body, c} }
 func (b *B) If(c Expr, then []Stmt, els []Stmt) Stmt {
 	return &If{b.id(), []Expr{c}, [][]Stmt{then}, els, els != nil}
 }
